@@ -3,10 +3,12 @@
 EXTENDS GenKeys
 O1 == 0 + (NKeyLens)
 O2 == O1 + (Len(Scalars)+NKeyRand)
-Count == O2
+O3 == O2 + (NShapes)
+Count == O3
 ItemAt(g) ==
   IF g <= O1 THEN KeyLenAt(g - 0)
-  ELSE KeyAt(g - O1)
+  ELSE IF g <= O2 THEN KeyAt(g - O1)
+  ELSE ShapeAt(g - O2)
 VARIABLE n
 INSTANCE GenBase
 =============================================================================
